@@ -58,10 +58,6 @@ Definition st_wake (now : Z) (i : nat) (r : rstate) : rstate :=
   match ph (nd (ms r) i) with
   | PRetryWait => if (endt r i + ivl i - eps <=? now)%Z then try r (WRetryWake i) else r
   | _ => r end.
-(* Schedule called with done == nil: the worker that reset the node falls through to the final status check; in the
-   runs accepted here it does so before the loop relaunches the node (the other order is the stale-worker flip) *)
-Definition st_stale (i : nat) (r : rstate) : rstate :=
-  match stale (nd (ms r) i) with S _ => try r (WStaleFinish i) | O => r end.
 Definition st_mark (i : nat) (r : rstate) : rstate :=
   match st (nd (ms r) i) with
   | NNone => match guided_mark (ms r) i with Some d => try r (LMark i d) | None => r end
@@ -83,7 +79,7 @@ Definition st_dry (i : nat) (r : rstate) : rstate :=
   | _ => r end.
 
 Definition pass_node (now : Z) (r : rstate) (i : nat) : rstate :=
-  st_finish i (st_after i (st_dry i (st_setup i (st_hidden i (st_mark i (st_stale i (st_wake now i (st_finish i (st_after i r))))))))).
+  st_finish i (st_after i (st_dry i (st_setup i (st_hidden i (st_mark i (st_wake now i (st_finish i (st_after i r)))))))).
 
 Definition pass (now : Z) (r : rstate) : rstate := fold_left (pass_node now) (seq 0 n) r.
 (* passes until one adds no label (or the fuel is spent) *)
